@@ -112,12 +112,12 @@ func load(patterns ...string) *loaded {
 	}
 	prog, spkgs := ssautil.AllPackages(pkgs, ssa.InstantiateGenerics)
 	prog.Build()
-	gcp := 400
+	gcp := 200
 	if v, err := strconv.Atoi(os.Getenv("SYMGO_GOGC")); err == nil {
 		gcp = v
 	}
 	debug.SetGCPercent(gcp)
-	debug.SetMemoryLimit(24 << 30)
+	debug.SetMemoryLimit(16 << 30)
 	if os.Getenv("SYMGO_MEM") != "" {
 		var ms runtime.MemStats
 		runtime.ReadMemStats(&ms)
